@@ -13,6 +13,11 @@ use crate::{
 };
 
 pub fn encode(lens: &[usize], src: &[u8]) -> io::Result<Vec<u8>> {
+    // Zero-length records have no quality scores and cannot be represented (a record is started
+    // when a quality score is read).
+    let lens: Vec<_> = lens.iter().copied().filter(|&len| len > 0).collect();
+    let lens = &lens[..];
+
     let mut dst = Vec::new();
 
     let len =
